@@ -67,9 +67,12 @@ package storage
 //@   ensures [wf] err != nil ==> len(val) == 0
 //@   ensures [floor] is_compact_key(key) ==> ((err == ErrKeyNotFound) == !floor_set) && (err == nil ==> len(val) == 8 && be64_of(val) == floor)
 
+// native_ttl: the engine expires keys written with a ttl by itself
+//@ ghost native_ttl Bool
 //@ func KvStorage.SupportTTL() (result)
 //@   assumed
 //@   pure
+//@   ensures [feature] result == native_ttl
 
 //@ func KvStorage.GetTimestampOracle(ctx) (timestamp, err)
 //@   assumed
